@@ -337,7 +337,7 @@ def angle_grid(rng, n_grid, n_rand):
 
 def catalog_cases(chk):
     rng = chk.rng
-    n_grid, n_rand = chk.pick((24, 6), (200, 60))
+    n_grid, n_rand = chk.pick((24, 6), (96, 24))
     cases = [{"kind": "catalog", "name": nm, "kw": {}} for nm in FIXED_GATES]
     for nm, key in PARAM_GATES.items():
         for x in angle_grid(rng, n_grid, n_rand):
@@ -691,20 +691,67 @@ def is_cyclic_real(edges):
     return bool(_is_cyclic(adj, len(nodes)))
 
 
+def _real_flags_shard(args):
+    """worker: (nq, k, first) -> (flag strings of all sequences starting with `first`, first non-forest witness)"""
+    nq, k, first = args
+    from perceval.converters.converter_utils import label_cnots_in_gate_sequence
+    pairs = [(a, b) for a in range(nq) for b in range(nq) if a != b]
+    out = []
+    bad = None
+    hist = {}
+    for combo in itertools.product(pairs, repeat=k - 1):
+        seq = [first] + list(combo)
+        try:
+            lab = label_cnots_in_gate_sequence([["cx", list(e), None, None] for e in seq])
+        except Exception as e:
+            out.append(core.exc_class(e))
+            continue
+        out.append("".join("1" if x == PP else "0" for x in lab))
+        npp = out[-1].count("1")
+        hist[npp] = hist.get(npp, 0) + 1
+        if bad is None and not union_find_forest([e for e, x in zip(seq, lab) if x == PP]):
+            bad = seq
+    return out, bad, hist
+
+
 def check_labelling(chk, pool, fixed):
+    import multiprocessing as mp
     rng = chk.rng
+    # --- exhaustive: every sequence of k CNOTs on nq qubits (ordered pairs, both orientations)
+    plan = chk.pick([(3, k) for k in range(1, 6)] + [(4, k) for k in range(1, 4)],
+                    [(3, k) for k in range(1, 6)] + [(4, k) for k in range(1, 6)])
+    shards = []
+    for nq, k in plan:
+        for a in range(nq):
+            for b in range(nq):
+                if a != b:
+                    shards.append((nq, k, (a, b)))
+    with mp.get_context("fork").Pool(chk.pick(8, 12)) as mpool:
+        real_async = mpool.map_async(_real_flags_shard, shards)
+        reps = pool.ask_many([{"op": "labelenum", "fixed": fixed, "nq": nq, "k": k, "first": list(f)}
+                              for nq, k, f in shards], costs=[float((nq * (nq - 1)) ** k) for nq, k, _ in shards])
+        reals = real_async.get()
+    n_exh = 0
     seqs = []
-    pairs3 = [(a, b) for a in range(3) for b in range(3) if a != b]
-    pairs4 = [(a, b) for a in range(4) for b in range(4) if a != b]
-    lim3, lim4 = chk.pick((5, 3), (5, 5))
-    for k in range(0, lim3 + 1):
-        for combo in itertools.product(pairs3, repeat=k):
-            seqs.append([["cx", list(e)] for e in combo])
-    for k in range(1, lim4 + 1):
-        for combo in itertools.product(pairs4, repeat=k):
-            if any(3 in e for e in combo):
-                seqs.append([["cx", list(e)] for e in combo])
-    n_exh = len(seqs)
+    for (nq, k, first), rep, (real, badseq, hist) in zip(shards, reps, reals):
+        model = rep.get("flags", "").split(",") if "flags" in rep else None
+        n_exh += len(real)
+        chk.evaluations += len(real)
+        chk.sigs.add(("labelenum", nq, k, first))
+        chk.count("labelling_cnots", k, len(real))
+        for npp, c in hist.items():
+            chk.count("labelling_pp", npp, c)
+            if 0 < npp < k:
+                chk.branch("label-mixed", c)
+        if badseq is not None:
+            chk.fail("violation", "label-pp-cycle", f"post-processed CNOTs of the CNOT sequence {badseq} contain a cycle",
+                     {"kind": "label", "gates": [["cx", list(e)] for e in badseq]})
+        if model != real:
+            pairs = [(a, b) for a in range(nq) for b in range(nq) if a != b]
+            for i, combo in enumerate(itertools.product(pairs, repeat=k - 1)):
+                if model is None or i >= len(model) or model[i] != real[i]:
+                    seqs.append([["cx", list(e)] for e in [first] + list(combo)])   # re-examined (and shrunk) below
+                    break
     # mixed sequences: CNOT / CX names, CZ, CSIGN, SWAP and one-qubit gates in between, up to 5 qubits
     for _ in range(chk.pick(1500, 6000)):
         nq = rng.randint(2, 5)
@@ -834,7 +881,7 @@ def conv_cases(chk):
         for i in range(per_fw):
             n = rng.choice(chk.pick((2, 3, 3), (2, 3, 3, 4)))
             ng = rng.randint(2, chk.pick(6, 10))
-            ops = gen_ops(rng, fw, n, ng, (cap - n) // 2)
+            ops = gen_ops(rng, fw, n, ng, (min(cap, 6 if n >= 4 else cap) - n) // 2)
             if i % 5 == 4:
                 ops = [op for op in ops if op["g"] not in GENERIC[fw]] or ops
             style = "v3"
